@@ -662,7 +662,8 @@ namespace BitSerializer::Convert::Detail
 								SafeAddDuration(duration, transformToDuration(negValue, sym, isDatePart));
 							}
 							else {
-								throw std::out_of_range("ISO duration contains too big number");
+								// The number is out of range of int64, but it's still can be representable in the coarser target units
+								SafeAddDuration(duration, -transformToDuration(value, sym, isDatePart));
 							}
 						}
 						else {
